@@ -40,8 +40,11 @@ def trace(case, queries=None):
                     out["qcount"] += 1
                 pt, r = s.step()
                 out["points"].append([repr(x) for x in pt] if isinstance(pt, list) else repr(pt))
-            lp = s.last_point()
-            out["last"] = [repr(x) for x in lp] if isinstance(lp, list) else repr(lp)
+            try:
+                lp = s.last_point()
+                out["last"] = [repr(x) for x in lp] if isinstance(lp, list) else repr(lp)
+            except Exception as e:  # noqa: BLE001 - e.g. open finding D11: compared as an outcome, not aborted
+                out["last"] = "raises:" + type(e).__name__
         except Exception as e:  # noqa: BLE001
             out["error"] = "%s@%d" % (type(e).__name__, len(out["points"]) + 1)
     return out
@@ -157,8 +160,8 @@ def make_machine(col, sub, tier):
         @precondition(lambda self: self.case is not None)
         @rule(k=st.integers(1, 5))
         def query(self, k):
-            if self.dead:
-                return
+            if self.dead or not self.pts:
+                return  # "between rounds": a query before the first round is not in the property
             i = len(self.pts) + 1
             try:
                 for _ in range(k):
@@ -174,8 +177,10 @@ def make_machine(col, sub, tier):
             case = copy.deepcopy(self.case)
             case["T"] = len(self.pts)
             case["queries"] = dict(self.q)
-            if self.dead or not self.pts:
-                col.add(sub, case, Outcome(aborted=self.dead or "empty"))
+            if not self.pts and not self.dead:
+                return  # Hypothesis ended the machine before any step: not a case
+            if self.dead:
+                col.add(sub, case, Outcome(aborted=self.dead))
                 return
             out = check_queries(case)
             col.add(sub, case, out)
